@@ -1,5 +1,5 @@
 From Coq Require Import Extraction ExtrOcamlBasic ZArith List.
-From MV Require Import Bvh.BvhDefs Bvh.BvhModel Bvh.BvhSmall Bvh.Sweep2Defs.
+From MV Require Import Bvh.BvhDefs Bvh.BvhModel Bvh.BvhSmall Bvh.Sweep2Defs Bvh.BvhTransform.
 Extraction Language OCaml.
 Extraction "../build/ml/c14_model.ml" build_tree find_collision wf_check shape_check
-  overlap overlap_pt bunion spread_bits3 box_of tree_of leaves sweep_pairs build_two_d_tree query_two_d_tree query_two_d_tree_stk.
+  overlap overlap_pt bunion spread_bits3 box_of tree_of leaves sweep_pairs build_two_d_tree query_two_d_tree query_two_d_tree_stk btransform.
